@@ -5,7 +5,7 @@
     [spec_ok]: the property's clauses ([Maintain.Spec]) evaluated on the implementation's
     observations only. *)
 From Coq Require Import List Arith Bool ZArith.
-From CM Require Import Lib.Wire Maintain.Model Maintain.Spec Maintain.XModel.
+From CM Require Import Lib.Wire Maintain.Model Maintain.Spec Maintain.XModel Maintain.Issuers.
 Import ListNotations.
 Open Scope Z_scope.
 
@@ -50,6 +50,8 @@ Record case := Case {
   c_next : nat;
   c_obs0 : xobs;
   c_hist : list (xevent * xobs);
+  c_bundles : list (list (list (option cert)));
+    (* for the initial and every later observation: per name, per issuer key, the stored bundle *)
   c_final : xobs     (* after the context was cancelled and all jobs / passes ran to their end *)
 }.
 
@@ -57,7 +59,8 @@ Definition get_case : dec case :=
   k <- get_nat ;; o <- get_list get_bool ;; d <- get_bool ;;
   st <- get_list (get_pair get_nat get_cert) ;; ca <- get_list get_cert ;; nx <- get_nat ;;
   o0 <- get_xobs ;; h <- get_list (get_pair get_xevent get_xobs) ;; fin <- get_xobs ;;
-  ret (Case k o d st ca nx o0 h fin).
+  bs <- get_list (get_list (get_list (get_opt get_cert))) ;;
+  ret (Case k o d st ca nx o0 h bs fin).
 
 Definition od_of (c : case) (n : name) : bool := nth n (c_od c) false.
 Definition init_of (c : case) : state := State (c_store c) (c_cache c) [] [] [] [] [] (c_next c) false.
@@ -85,8 +88,18 @@ Definition is_ocsp (e : xevent) : bool := match e with OcspPass _ => true | _ =>
 Definition case_ok (c : case) : bool :=
   negb (c_idue c) || negb (existsb (fun p => is_ocsp (fst p)) (c_hist c)).
 
+(** "the stored certificate" of an observation is the most recently issued of the bundles found under
+    the issuers' keys ([Issuers.newest], what [Issuers.mload] returns) *)
+Definition newest_of (per : list (option cert)) : option cert :=
+  newest (flat_map (fun o => match o with Some c => [c] | None => [] end) per).
+Definition bundles_ok (c : case) : bool :=
+  let obs := c_obs0 c :: map snd (c_hist c) in
+  (length (c_bundles c) =? length obs)%nat &&
+  forallb (fun p => list_eqb opt_cert_eqb (map newest_of (snd p)) (o_store (xo (fst p))))
+          (combine obs (c_bundles c)).
+
 Definition model_agrees (c : case) : bool :=
-  wf_b (od_of c) (c_k c) (init_of c) && case_ok c &&
+  wf_b (od_of c) (c_k c) (init_of c) && case_ok c && bundles_ok c &&
   match first_diff c with None => true | Some _ => false end.
 
 Definition last_obs (c : case) : xobs := last (map snd (c_hist c)) (c_obs0 c).
